@@ -1,9 +1,32 @@
 HOOK_COMMITS = ['d56e60a']
+LSM_TIE = ('Tie: every run rebuilds the harness against /repo with -tags verif and executes random single-client programs on the real DB over a recording storage; hook events give '
+ 'every installed version, flush, table compaction and trivial move, whose table files are read back from storage and sent to the compiled Lean model: each installed version must satisfy Version.wfB, '
+ 'each flush table must equal the frozen buffer, each compaction must satisfy CompactionOK (inputs closed under user-comparer overlap, outputs = a legal cut of build minSeq base (mergeAll inputs)), '
+ 'and dbGet on dumped states must answer like DB.Get. The implementation-side oracle (plain map / copies at snapshot creation / structural checker on tables read back) runs on every program. ')
 NOTES = ('Technique: machine-checked proof in Lean 4 over an executable model tied to /repo on every run by (a) a go/ast extractor '
          'regenerating the constants the model uses and (b) a correspondence check that runs the compiled model and the real code on the '
          'same generated operations; the implementation-side property oracle runs on every generated case. See DESIGN.md.')
 NOT_CLAIMED = {}
 CLAIMS = {
+ 'C01': dict(
+  technique='Lean 4 refinement theorem (lookup = plain map) + trace validation of real runs + plain-map oracle',
+  text=('7 theorems (Props/C01.lean): memGet, level-0 (max-seq) lookup, sorted-level lookup, version.get and DB.get each equal `newest`/`view` over all entries for every lawful comparer, every '
+        'well-formed version and every sequence number (lookup_refines_view); has_iff_get. Together with C03/C06 (every installed version is well formed and flush/compaction preserve views) the answers of a '
+        'sequential client are those of a plain map whatever the layout. ' + LSM_TIE),
+  note=('Trusted: Lean kernel; propext, Classical.choice, Quot.sound; the hooks and the harness. The model treats a table as its entry list (C13 ties files to entry lists) and the memdb as a sorted list (C14). '
+        'Close/reopen is covered by the implementation-side oracle here and by C04 for crash images. Source ordering hypotheses (SourcesOK) are checked on every dumped state by the structural oracle, not proved for concurrent dumps.')),
+ 'C03': dict(
+  technique='Lean 4 theorems (compaction builder preserves every view at or above minSeq; snapshot_stable over the interleaving model) + trace validation + frozen-copy oracle',
+  text=('9 theorems (Props/C03.lean): mergeAll is a sorted permutation of the inputs; build (tableCompactionBuilder.run, rules A and B) returns a sorted sublist and preserves `view` for every reader at s >= minSeq given the '
+        'base-level side condition; compaction/trivial move/flush edits and any chain of them preserve every such view and version.get; plus C05.snapshot_stable/iterator_stable over the interleaving model. ' + LSM_TIE +
+        'minSeq of every real compaction is checked against the snapshots the client holds.'),
+  note='Trusted: as C01. The theorem is about readers at or above minSeq; that goleveldb computes minSeq as the oldest registered snapshot is checked per compaction event, iterators are covered by version pinning (C07).'),
+ 'C06': dict(
+  technique='Lean 4 invariant theorems (well-formedness preserved by flush/compaction/move edits) + per-install trace validation + structural checker on real table files',
+  text=('10 theorems (Props/C06.lean): Version.wfB characterised; preserved by a flush at level 0 (or deeper without overlap), by a compaction edit satisfying CompactionOK, by a trivial move; getOverlaps (sorted branch with the user comparer, '
+        'and the level-0 closure loop) meet their specifications; counterexamples show each hypothesis is needed (incl. the bytes.Compare defect D1, now fixed). ' + LSM_TIE),
+  note='Trusted: as C01. File existence and recorded size are checked by the implementation-side oracle against the recording storage; Recover-produced versions are covered by C19.'),
+
  'C15': dict(
   technique='Lean 4 theorems over a model of key.go/comparer.go + regenerated constants + function-level differential',
   text=('23 theorems (Props/C15.lean): internal-key encode/parse round trip; icmp is a strict total order for every lawful comparer, user key ascending '
